@@ -397,14 +397,46 @@ func (f *Forge) route(r *http.Request) (string, handlerFn) {
 
 // ---- GitHub ----
 
-func (f *Forge) ghListFiles(*http.Request, []byte) (int, any, bool, map[string]string) {
+// ghPage cuts a GitHub listing the way api.github.com does: `per_page` (default 30, at most 100) items starting
+// at `page` (default 1), and a Link header naming the next and last page while there is one.
+func ghPage(r *http.Request, items []map[string]any) ([]map[string]any, map[string]string) {
+	per, page := 30, 1
+	if v, err := strconv.Atoi(r.URL.Query().Get("per_page")); err == nil && v > 0 {
+		per = min(v, 100)
+	}
+	if v, err := strconv.Atoi(r.URL.Query().Get("page")); err == nil && v > 0 {
+		page = v
+	}
+	from := (page - 1) * per
+	if from >= len(items) {
+		return []map[string]any{}, nil
+	}
+	to := min(from+per, len(items))
+	var hdr map[string]string
+	if to < len(items) {
+		last := (len(items) + per - 1) / per
+		u := *r.URL
+		q := u.Query()
+		q.Set("per_page", strconv.Itoa(per))
+		q.Set("page", strconv.Itoa(page+1))
+		u.RawQuery = q.Encode()
+		next := "http://" + r.Host + u.String()
+		q.Set("page", strconv.Itoa(last))
+		u.RawQuery = q.Encode()
+		hdr = map[string]string{"Link": fmt.Sprintf("<%s>; rel=\"next\", <%s>; rel=\"last\"", next, "http://"+r.Host+u.String())}
+	}
+	return items[from:to], hdr
+}
+
+func (f *Forge) ghListFiles(r *http.Request, _ []byte) (int, any, bool, map[string]string) {
 	f.mu.Lock()
 	defer f.mu.Unlock()
 	out := []map[string]any{}
 	for _, fl := range f.Files {
 		out = append(out, map[string]any{"filename": fl.Path, "previous_filename": fl.OldPath, "patch": fl.Patch, "status": "modified"})
 	}
-	return 200, out, false, nil
+	pg, hdr := ghPage(r, out)
+	return 200, pg, false, hdr
 }
 
 func ghComment(c *Comment) map[string]any {
@@ -415,7 +447,7 @@ func ghComment(c *Comment) map[string]any {
 	return m
 }
 
-func (f *Forge) ghListComments(*http.Request, []byte) (int, any, bool, map[string]string) {
+func (f *Forge) ghListComments(r *http.Request, _ []byte) (int, any, bool, map[string]string) {
 	f.mu.Lock()
 	defer f.mu.Unlock()
 	out := []map[string]any{}
@@ -425,7 +457,8 @@ func (f *Forge) ghListComments(*http.Request, []byte) (int, any, bool, map[strin
 		}
 		out = append(out, ghComment(c))
 	}
-	return 200, out, false, nil
+	pg, hdr := ghPage(r, out)
+	return 200, pg, false, hdr
 }
 
 func (f *Forge) ghCreateComment(_ *http.Request, body []byte) (int, any, bool, map[string]string) {
